@@ -1069,6 +1069,57 @@ class _NP:
     def zeros_like(self, a):
         return full(a.shape, 0.0 if a.kind == "float" else 0, dtype=a.kind)
 
+    def full_like(self, a, fill_value, dtype=None):
+        """np.full_like keeps the element type of `a` unless dtype is given: a real fill value stored into an integer array is truncated,
+        which the element-type ledger reports (dtype_store obligation)"""
+        kind = A.dtype_kind(dtype) or a.kind
+        e = cur()
+        if kind == "int" and not (isinstance(fill_value, int) or (isinstance(fill_value, Num) and fill_value.is_int)):
+            e.oblige("dtype_store.full_like_keeps_integer_type_but_fill_value_is_real", z3.BoolVal(False), cls="P")
+        return full(a.shape, fill_value, dtype=kind)
+
+    def empty_like(self, a, dtype=None):
+        kind = A.dtype_kind(dtype) or a.kind
+        return A.fresh_symbolic("empty_like", a.shape, dtype=kind, eng=cur())
+
+    def piecewise(self, x, condlist, funclist, *args, **kw):
+        """np.piecewise: out has the element type of x; pieces are assigned in order (later conditions override earlier ones), an extra
+        last entry of funclist is the default where no condition holds (else 0); callables are applied to the selected elements"""
+        e = cur()
+        if not isinstance(x, Arr) or args or kw:
+            raise Unsupported("np.piecewise form")
+        conds = list(condlist) if isinstance(condlist, (list, tuple)) else [condlist]
+        funcs = list(funclist)
+        if len(funcs) not in (len(conds), len(conds) + 1):
+            e.py_raise("ValueError", "piecewise: function list length")
+        default = funcs[len(conds)] if len(funcs) == len(conds) + 1 else 0
+        fx = x.snapshot_fn()
+        cfs = [c.snapshot_fn() if isinstance(c, Arr) else (lambda idx, c=c: c) for c in conds]
+
+        def apply(f, v):
+            if callable(f) or hasattr(f, "node"):
+                return e.call(f, [v], {})
+            return f
+        if x.kind == "int":
+            # the result keeps the integer type of x: any non-integer piece would be truncated
+            probe = [apply(f, fx(tuple(e.fresh_int("pw_i") for _ in x.shape))) for f in funcs]
+            if any(not (isinstance(v, int) or (isinstance(v, Num) and v.is_int)) for v in probe):
+                e.oblige("dtype_store.piecewise_keeps_integer_type_but_a_piece_is_real", z3.BoolVal(False), cls="P")
+
+        def value(idx):
+            v = apply(default, fx(idx))
+            for c, f in zip(cfs, funcs):
+                v = ite(c(idx), apply(f, fx(idx)), v)
+            return v
+        return Arr(x.shape, value, dtype=x.kind)
+
+    def atleast_1d(self, x):
+        if isinstance(x, Arr):
+            return x if x.ndim >= 1 else Arr((1,), lambda idx: x.get(), dtype=x.kind)
+        if isinstance(x, (list, tuple)):
+            return from_nested(list(x))
+        return Arr((1,), lambda idx: x, dtype="int" if (isinstance(x, int) or (isinstance(x, Num) and x.is_int)) else "float")
+
     def arange(self, n):
         return Arr((n,), lambda idx: idx[0], dtype="int")
 
